@@ -26,7 +26,7 @@ pub static SPEC: PropSpec = PropSpec {
     case_cpu_s: 10,
     shards: 0,
     run,
-    floors: &[("inputs", 5_000, 1_000_000), ("compile_ok", 100, 20_000), ("stage_typer_err", 100, 20_000), ("stage_compile_err", 10, 1_000)],
+    floors: &[("inputs", 5_000, 1_000_000), ("compile_ok", 100, 20_000), ("stage_typer_err", 100, 20_000), ("stage_compile_err", 10, 1_000), ("generic_shapes_instantiated", 15, 15), ("inputs_generated", 40, 4_000)],
     finish: None,
 };
 
@@ -374,6 +374,73 @@ fn run(ctx: &mut Ctx) {
                     });
                 }
             }
+        }
+    }
+    // generic-signature family: the type parameter in every type-constructor position of a parameter and of a
+    // result (tuple left / right / nested, Vec, array, Ref, function argument / result, generic struct, generic enum,
+    // compositions), each instantiated at six types: instantiation must answer, not crash
+    {
+        let shapes: &[(&str, &str)] = &[
+            ("(T, int32)", "(v, 1)"),
+            ("(int32, T)", "(1, v)"),
+            ("((T, T), bool)", "((v, v), true)"),
+            ("(bool, (int32, (T, string)))", "(true, (1, (v, \"s\")))"),
+            ("Vec[T]", "vec_push(vec_new(), v)"),
+            ("Vec[(T, int32)]", "vec_push(vec_new(), (v, 2))"),
+            ("[T; 2]", "[v, v]"),
+            ("[(T, bool); 1]", "[(v, false)]"),
+            ("Ref[T]", "ref(v)"),
+            ("Ref[(T, T)]", "ref((v, v))"),
+            ("(int32) -> T", "|y: int32| v"),
+            ("(int32) -> (T, int32)", "|y: int32| (v, y)"),
+            ("Bx[T]", "Bx { v: v, n: 1 }"),
+            ("Bx[(T, T)]", "Bx { v: (v, v), n: 1 }"),
+            ("Opt[T]", "Opt::Som(v)"),
+            ("Opt[(int32, T)]", "Opt::Som((3, v))"),
+            ("Bx[Opt[T]]", "Bx { v: Opt::Som(v), n: 1 }"),
+            ("(Bx[T], Opt[T])", "(Bx { v: v, n: 1 }, Opt::Non)"),
+            ("T", "v"),
+        ];
+        let insts = ["1", "\"s\"", "true", "(1, \"s\")", "Bx { v: 1, n: 2 }", "()", "Opt::Som(2)", "[1, 2]"];
+        for (si, (ty, mk)) in shapes.iter().enumerate() {
+            if !ctx.mine(400_000 + si as u64) {
+                continue;
+            }
+            let mut src = String::from("struct Bx[A] { v: A, n: int32 }\nenum Opt[T] { Som(T), Non }\n");
+            src.push_str(&format!("fn give[T](v: T) -> {} {{ {} }}\nfn take[T](x: {}) -> int32 {{ 1 }}\nfn both[T, U](x: {}, u: U) -> (U, {}) {{ (u, x) }}\n", ty, mk, ty, ty, ty));
+            src.push_str("fn main() -> unit {\n");
+            for (k, v) in insts.iter().enumerate() {
+                src.push_str(&format!("    let g{k} = give({v});\n    let _ = string_println(int32_to_string(take(g{k})));\n    let (_, h{k}) = both(g{k}, {v});\n    let _ = take(h{k});\n", k = k, v = v));
+            }
+            src.push_str("    ()\n}\n");
+            ctx.case(&format!("generic_shapes/{}", si), |c| {
+                let before = c.counter("compile_ok");
+                check_source(c, "generic_shapes", &src);
+                if c.counter("compile_ok") > before {
+                    c.count("generic_shapes_instantiated", 1);
+                }
+                if si % 6 == 0 {
+                    c.sample(json!({"workload":"generic_shapes","input":src}));
+                }
+            });
+        }
+    }
+    // generated well-typed programs (all features) and programs over the generic library of C07
+    {
+        use crate::gl::ast::{PrintOpts, print_program};
+        let ngen = tier.pick(60u64, 6_000u64) / ctx.nshards as u64 + 1;
+        for i in 0..ngen {
+            let mut rng = Rng::keyed(seed, "c04-gen", ctx.shard as u64, i);
+            let src = if i % 3 == 0 {
+                let (prog, _) = crate::props::c07::build(&mut rng, 10);
+                print_program(&prog, PrintOpts::default())
+            } else {
+                let mut f = crate::gl::pgen::Features::base();
+                f.n_fns = 2 + rng.below(4);
+                let (prog, _) = crate::gl::pgen::generate(&mut rng, f);
+                print_program(&prog, PrintOpts::default())
+            };
+            ctx.case(&format!("generated/{}/{}", ctx.shard, i), |c| check_source(c, "generated", &src));
         }
     }
     for (i, (id, text)) in util::known_witnesses("C04").iter().enumerate() {
